@@ -312,7 +312,7 @@ theorem putEntry_keys_nodup (n t : String) (es : List RegEntry) (h : (es.map (·
 /-- Any name that was not registered yields -32601 (through the dispatcher's method layer). -/
 theorem C15_unregistered_not_found (reg : Registry) (t : HandlerTable) (req : Request) (ctx : String)
     (hm : reg.get req.method = none) (hh : NoHandlers t (-32601)) :
-    (handleRequest reg t req ctx).1 = answerError req (methodNotFoundWith (.set (.str s!"method '{req.method}' not found"))) := by
+    (handleRequest reg t req ctx).1 = answerError req (methodNotFoundWith (.set freeText)) := by
   rw [C03_method_not_found reg t req ctx hm hh]
 
 /-! ### class-based views expose exactly their public callables -/
